@@ -14,6 +14,10 @@
      ensure <string>                   -> str <string>
      rtpp <fam> <type> <name>          -> rt <printed> same|diff|fail|null   (resolve(prettyprint sa) vs sa)
      rtser <fam> <type> <name>         -> rt same|diff|none                  (deserialize(serialize sa) vs sa)
+     multi <op>,<op>,...               -> one snapshot "[k=<sa>/<printed>/<dup>/<serialised> ... cmp=<digits>]" per op;
+                                          op "+<string>" resolves into the next slot (held if exactly one address),
+                                          op "-<k>" releases slot k.  The addresses are values: each slot's results
+                                          are those of the single-address operations, whatever else is held.
      aws <file bytes>                  -> err | ok <id> <secret>
      rp <file bytes>                   -> err | ok <passphrase>
    model faults print "fault" / "assert" / "fuel". *)
@@ -118,6 +122,38 @@ let () = iter_lines (fun line ->
          | Ok (Some sa2) -> "rt " ^ show_res (fun b -> if b then "same" else "diff") (same_sa sa sa2)
          | r -> show_res (fun _ -> "") r)
      | r -> show_res (fun _ -> "") r)
+  | ["multi"; ops] ->
+    let entry sa =
+      show_sa sa ^ "/" ^
+      show_res (function None -> "null" | Some s -> hex_of_bytes s) (sock_addr_prettyprint_x sa) ^ "/" ^
+      show_res show_sa (sock_addr_dup_m sa) ^ "/" ^
+      show_res hex_of_bytes (sock_addr_serialize_m sa) in
+    let buf = Buffer.create 256 in
+    let held = ref [] in            (* (slot, sa option), newest first *)
+    let nheld = ref 0 in
+    List.iter (fun op ->
+      if op <> "" then begin
+        let arg = String.sub op 1 (String.length op - 1) in
+        (match op.[0] with
+         | '+' when !nheld < 16 ->
+           let r = (match sock_resolve_x (bytes_of_hex arg @ [N0]) with
+               | Ok (RAddrs [sa]) -> Some (sa, entry sa) | _ -> None) in
+           held := (!nheld, r) :: !held; incr nheld
+         | '-' ->
+           let k = (try ios arg with _ -> -1) in
+           held := List.map (fun (i, r) -> if i = k then (i, None) else (i, r)) !held
+         | _ -> ());
+        let alive = List.filter_map (fun (i, r) -> match r with Some (sa, e) -> Some (i, sa, e) | None -> None)
+            (List.rev !held) in
+        Buffer.add_string buf "[";
+        List.iter (fun (i, _, e) -> Buffer.add_string buf (Printf.sprintf "%d=%s " i e)) alive;
+        Buffer.add_string buf "cmp=";
+        List.iter (fun (i, a, _) -> List.iter (fun (j, b, _) ->
+            if i < j then Buffer.add_string buf
+                (show_res (fun r -> if int_of_n r <> 0 then "1" else "0") (sock_addr_cmp_m a b))) alive) alive;
+        Buffer.add_string buf "]"
+      end) (String.split_on_char ',' ops);
+    Buffer.contents buf
   | ["aws"; f] ->
     show_res (function AwsErr -> "err" | AwsOk (a, b) -> "ok " ^ hex_of_bytes a ^ " " ^ hex_of_bytes b)
       (aws_readkeys_m aws_stack_buffer (bytes_of_hex f))
